@@ -112,7 +112,7 @@ class S(diff.DiffOperator):
 
             elif kdim < sm.kdim:
                 diff = sm.kdim - kdim
-                shift = np.pad(shift, [(0, 0)] * self.ndim + [(0, diff)])
+                shift = np.pad(shift, [(0, 0)] * (shift.ndim - 1) + [(0, diff)])
 
             # apply (not inplace)
             opts = {
@@ -132,7 +132,7 @@ class S(diff.DiffOperator):
                 sm.setup_coords(kdim)
             elif kdim < sm.kdim:
                 diff = sm.kdim - kdim
-                shift = np.pad(shift, [(0, 0)] * self.ndim + [(0, diff)])
+                shift = np.pad(shift, [(0, 0)] * (shift.ndim - 1) + [(0, diff)])
 
             # kgrid
             kgrid = sm.options.get("kgrid") or self.kgrid
